@@ -124,10 +124,12 @@ def native_energy_check():
     N = 256
     t = np.arange(N)
     pulses = np.sqrt(0.3) * np.exp(-((t - 128) / 12.0) ** 2)
-    for shape_kind in ('1pol', '2pol', 'leading-zeros'):
+    for shape_kind in ('1pol', '2pol', 'leading-zeros', 'all-zero', 'all-zero-2pol'):
         s = pulses.astype(complex) if shape_kind != '2pol' else np.array([pulses, 0.5j * np.roll(pulses, 30)])
         if shape_kind == 'leading-zeros':
             s = s.copy(); s[:40] = 0
+        if shape_kind.startswith('all-zero'):          # a dark record (e.g. a frame of zeros): the property says "any input"
+            s = np.zeros(N, complex) if shape_kind == 'all-zero' else np.zeros((2, N), complex)
         s0 = s
         # the 4th and 5th sets are weak signals on a short fibre (amplitude scaled down): gamma*P_peak*L < phi_max, so the first
         # adaptive step is longer than the fibre and the remainder step is negative
@@ -152,7 +154,7 @@ def native_energy_check():
 
 def rep(m):
     st, out = native(native_energy_check, 400)
-    return {'confirmed': st != 'ok' or not out[0], 'inputs': 'Gaussian pulse (1 pol, 2 pol, leading zero samples), five parameter sets [alpha, beta2, beta3, gamma, L, phi_max, amplitude scale] incl. the dispersion-free lossy case and two weak-signal/short-fibre cases (first step longer than the fibre)', 'observed': out}
+    return {'confirmed': st != 'ok' or not out[0], 'inputs': 'Gaussian pulse (1 pol, 2 pol, leading zero samples) and identically-zero fields (1 pol, 2 pol), five parameter sets [alpha, beta2, beta3, gamma, L, phi_max, amplitude scale] incl. the dispersion-free lossy case and two weak-signal/short-fibre cases (first step longer than the fibre)', 'observed': out}
 
 
 def _mk_energy(npol):
@@ -209,10 +211,17 @@ def _mk_energy(npol):
                 yr, xr = row(y.f['signal'], npol, r), row(x.f['signal'], npol, r)
                 if opaque.find_app(p.ex, yr) is None:
                     # output produced element-wise (a closed-form branch): |y[i]|^2 = exp(-alpha' L) |x[i]|^2 sample by sample, then linearity of the sum
-                    lem = red.scale_lemma(p.ex, abs2arr(yr), abs2arr(xr), uf('exp', -ap * L))
+                    fi, p.ex.fast_ident = p.ex.__dict__.get('fast_ident'), False      # this premise may hold because of the path condition (e.g. an all-zero field)
+                    lem = red.scale_lemma(p.ex, abs2arr(yr), abs2arr(xr), uf('exp', -ap * L), extra=[lambda j: red.instances(p.ex, [], [j])])
+                    p.ex.fast_ident = fi
                     if lem is not None:
                         facts = facts + [lem]
-                K.prove(f'energy[{sig},pol{r}]', list(p.pc) + facts, toreal(opaque.sumsq(p.ex, row(y.f['signal'], npol, r))) == toreal(opaque.sumsq(p.ex, row(x.f['signal'], npol, r))) * uf('exp', -ap * L),
+                goal = toreal(opaque.sumsq(p.ex, row(y.f['signal'], npol, r))) == toreal(opaque.sumsq(p.ex, row(x.f['signal'], npol, r))) * uf('exp', -ap * L)
+                # the goal is about sums and exp constants: facts about individual samples (reduction witnesses, the `any` witness of a non-dark
+                # field) only slow the solver down; hypotheses not connected to the goal are dropped (a subset of the hypotheses: sound)
+                from pyvc import numeval
+                hy = numeval.relevant_hyps([h for h in list(p.pc) + facts if isz(h) and not z3.is_quantifier(h) and not _mentions_samples(h)], [goal])
+                K.prove(f'energy[{sig},pol{r}]', hy, goal,
                         replay=rep, words="energy of each polarisation = input energy * exp(-alpha' L) for every sequence of step sizes (alpha' = alpha/4.343)")
             bad = purity_violations(p, y)
             (K.fail if bad else K.ok)(f'frame[{sig}]', '; '.join(bad) if bad else 'input untouched, fresh output')
@@ -220,6 +229,20 @@ def _mk_energy(npol):
             K.undecided('paths', f'expected iteration and return paths, got {kinds}')
     f.__name__ = f'energy_{npol}'
     return f
+
+
+def _mentions_samples(h):
+    """the hypothesis talks about individual array elements (an application of an array element function)"""
+    st, seen = [h], set()
+    while st:
+        x = st.pop()
+        if x.get_id() in seen:
+            continue
+        seen.add(x.get_id())
+        if z3.is_app(x) and x.num_args() > 0 and x.decl().kind() == z3.Z3_OP_UNINTERPRETED and x.decl().name() not in UF:
+            return True
+        st.extend(x.children())
+    return False
 
 
 def _consts(t):
@@ -406,7 +429,7 @@ def bounded(K):
               'bound': '2 fields (thorough 3) x 2 parameter sets (thorough 4) x phi_max in {0.1,0.02,0.005}; reference: 4000 fixed steps; N=512; plus the first set again after gv.fs doubled, phi_max = 5e-4 (energy law over thousands of steps) and two zero-dispersion-wavelength sets (beta2 = 0, beta3 != 0, one of them linear) on short pulses at 320 GS/s', 'samples': [{'field': 'gauss-train', 'alpha': 0.2, 'beta2': -20, 'gamma': 2, 'L': 8}],
               'failures': r if st == 'ok' else [st, r]})
     st, out = native(native_energy_check, 600)
-    K.bounded('energy_numeric', st == 'ok' and out[0], {'evaluations': 15, 'distinct_nontrivial': 15, 'bound': '3 layouts (incl. leading zero samples) x 5 parameter sets (two with the first adaptive step longer than the fibre): finiteness, shape, energy law to 1e-9, SPM closed form',
+    K.bounded('energy_numeric', st == 'ok' and out[0], {'evaluations': 25, 'distinct_nontrivial': 25, 'bound': '5 layouts (incl. leading zero samples and identically-zero fields) x 5 parameter sets (two with the first adaptive step longer than the fibre): finiteness, shape, energy law to 1e-9, SPM closed form',
                                                          'samples': [{'layout': 'leading-zeros'}], 'failures': out if st == 'ok' else [st, out]})
 
 
